@@ -119,7 +119,32 @@ class Fn:
     def succ(self):
         if self._succ is None:
             self._succ = [list(dict.fromkeys(self.succ_of_term(b["t"]))) for b in self.bbs]
+            if self.rec.get("coroutine"):
+                self._stitch_coroutine()
         return self._succ
+
+    def _stitch_coroutine(self):
+        """Coroutine (async fn) bodies are state machines: block 0 dispatches on the saved state and every await
+        point stores a state number and returns. Re-connect `store state k; return` → resume block of k and drop
+        the dispatch edges, which restores the control flow of the source between awaits."""
+        t0 = self.bbs[0]["t"]
+        if t0[0] != "switch":
+            return
+        resume = {v: b for v, b in t0[2]}
+        start = resume.get(0)
+        self.suspend_blocks = set()
+        for b, blk in enumerate(self.bbs):
+            if blk["t"][0] != "ret":
+                continue
+            k = None
+            for s in blk["s"]:
+                if s[0] == "sd":
+                    k = s[2]
+            if k is not None and k >= 3 and k in resume:
+                self._succ[b] = [resume[k]]
+                self.suspend_blocks.add(b)
+        if start is not None:
+            self._succ[0] = [start]
 
     @property
     def tsucc(self):
@@ -249,7 +274,9 @@ class Fn:
 
     @property
     def exits(self):
-        return [b for b in range(self.n) if self.term(b)[0] in ("ret",) and not self.bbs[b]["cl"]]
+        self.succ
+        susp = getattr(self, "suspend_blocks", set())
+        return [b for b in range(self.n) if self.term(b)[0] in ("ret",) and not self.bbs[b]["cl"] and b not in susp]
 
     # ---- events ----
     def calls(self):
